@@ -2,21 +2,22 @@
 //! from /repo/hook as an application does and then uses plain libc calls (socketpair, setsockopt, recv, close).
 //! body: `<limit ms> <close|keep> <new limit ms> <write after ms>` (see ../../harness_hook/src/main.rs)
 //! out : `reused=<0|1> first=<ret>:<errno>|- second=<ret>:<errno> at=<limit|newlimit|write|other>`
-//!   at = which of the three times of the case the duration of the second recv is closest to (within 35 %)
+//!   at = which of the three times of the case the duration of the second recv is closest to (within a factor of 1.6)
 //! body: `nb <blocking 0|1> <limit ms>` (C18)  out: `ret=<r>:<errno> flag=<0|1> at=<now|limit|other>`
-//! body: `sl <sleep|usleep|nanosleep> <ms>` (C14) out: `ret=<r> at=<requested|early|late>` (late = more than 35 % + 50 ms over)
+//! body: `sl <sleep|usleep|nanosleep> <ms>` (C14) out: `ret=<r> at=<requested|early|late>` (late = more than 50 % + 500 ms over)
 use crate::rng::Rng;
 use std::process::Command;
 
 pub fn gen(r: &mut Rng, _thorough: bool) -> String {
     match r.below(5) {
-        0 => { let blocking = r.below(2); let lim = *r.pick(&[0u64, 60, 60, 150]); return format!("nb {blocking} {}", if blocking == 1 && lim == 0 { 60 } else { lim }); }
+        0 => { let blocking = r.below(2); let lim = *r.pick(&[0u64, 300, 300, 600]); return format!("nb {blocking} {}", if blocking == 1 && lim == 0 { 300 } else { lim }); }
         1 => { let c = *r.pick(&["sleep", "usleep", "nanosleep", "nanosleep"]); return format!("sl {c} {}", if c == "sleep" { 1000 } else { *r.pick(&[1u64, 30, 120, 400]) }); }
         _ => {}
     }
-    let limit = *r.pick(&[0u64, 50, 50, 50]);
+    // the three times of a case are a factor of two or more apart, so that a loaded machine cannot blur them
+    let limit = *r.pick(&[0u64, 100, 100, 100]);
     let close = *r.pick(&["close", "close", "keep"]);
-    let (newl, w) = *r.pick(&[(0u64, 250u64), (0, 250), (120, 250), (500, 250), (120, 0)]);
+    let (newl, w) = *r.pick(&[(0u64, 900u64), (0, 900), (350, 900), (2200, 900), (350, 0)]);
     format!("{limit} {close} {newl} {w}")
 }
 
@@ -35,8 +36,8 @@ pub fn exec(body: &str, emit: &mut dyn FnMut(&str)) {
         let ms: f64 = line.split_whitespace().find_map(|t| t.strip_prefix("ms=")).and_then(|x| x.parse().ok()).unwrap_or(-1.0);
         let want: f64 = w[2].parse().unwrap_or(0.0);
         let at = if w[0] == "nb" {
-            if ms < 25.0 { "now" } else if want > 0.0 && (ms - want).abs() / want < 0.35 { "limit" } else { "other" }
-        } else if ms + 0.5 < want { "early" } else if ms > want * 1.35 + 50.0 { "late" } else { "requested" };
+            if ms < 120.0 { "now" } else if want > 0.0 && ms > want * 0.6 && ms < want * 1.7 { "limit" } else { "other" }
+        } else if ms + 0.5 < want { "early" } else if ms > want * 1.5 + 500.0 { "late" } else { "requested" };
         let kept: Vec<&str> = line.split_whitespace().filter(|t| !t.starts_with("ms=")).collect();
         emit(&format!("{} at={at}", kept.join(" ")));
         return;
@@ -50,7 +51,7 @@ pub fn exec(body: &str, emit: &mut dyn FnMut(&str)) {
     let cands = [("limit", num(0)), ("newlimit", num(2)), ("write", num(3))];
     let mut at = "other";
     let mut best = f64::MAX;
-    for (n, v) in cands { if v > 0.0 { let d = (ms - v).abs() / v; if d < 0.35 && d < best { best = d; at = n; } } }
+    for (n, v) in cands { if v > 0.0 && ms > 0.0 { let d = (ms / v).ln().abs(); if d < 1.6f64.ln() && d < best { best = d; at = n; } } }
     let kept: Vec<&str> = line.split_whitespace().filter(|t| !t.starts_with("ms=")).collect();
     emit(&format!("{} at={at}", kept.join(" ")));
 }
